@@ -74,10 +74,14 @@ def standardize (sd : ℕ → ℚ) (D : ℕ → ℕ → ℚ) (i j : ℕ) : ℚ :
 def standardizedSq (var : ℕ → ℚ) (D : ℕ → ℕ → ℚ) (i j : ℕ) : ℚ :=
   if var j = 0 then 0 else signedSq (D i j) / var j
 
-/-- The same operation with the division made explicit (`none` = a division by zero
-took place): used to state that every output is a number. -/
+/-- Division that records a zero divisor (`none` = the code would have produced
+`inf`/`nan`). -/
+def divE (a b : ℚ) : Option ℚ := if b = 0 then none else some (a / b)
+
+/-- `standardize` with the division made explicit: used to state that every output is
+a number (no division by zero is ever performed). -/
 def standardizeE (sd : ℕ → ℚ) (D : ℕ → ℕ → ℚ) (i j : ℕ) : Option ℚ :=
-  if sd j = 0 then some 0 else (if sd j = 0 then none else some (D i j / sd j))
+  if sd j = 0 then some 0 else divE (D i j) (sd j)
 
 /-- What the code did *before* the repair (`np.divide(..., where=...)` without `out=`):
 entries at zero-variance points are whatever the fresh buffer `g` contained. -/
